@@ -128,7 +128,7 @@ def strategy(draw):
             ops.append(dict(op="mutate", obj=0, which=draw(st.integers(0, 9)), value=draw(gen.floats(0.05, 0.95)), index=draw(st.integers(0, 3)), mutable_only=True))
         ops.append(dict(op="fresh-default", cls=cls))
     for _ in range(draw(st.integers(3, 10))):
-        kind = draw(gen.choice(["create", "create", "mutate", "mutate", "assign", "saveload", "saveread", "process", "fresh-default", "loadinto"])) if n_live else "create"
+        kind = draw(gen.choice(["create", "create", "mutate", "mutate", "assign", "saveload", "saveread", "rereadsame", "process", "fresh-default", "loadinto"])) if n_live else "create"
         if kind == "create":
             ops.append(dict(op="create", cls=draw(gen.choice(CLASSES)), mode=draw(st.sampled_from(["defaults", "args", "args", "shared-args"])),
                             arg=draw(st.integers(0, nargs - 1))))
@@ -144,6 +144,10 @@ def strategy(draw):
             n_live += 1
         elif kind == "process":
             ops.append(dict(op="process", obj=draw(st.integers(0, n_live - 1))))
+        elif kind == "rereadsame":
+            ops.append(dict(op="rereadsame", obj=draw(st.integers(0, n_live - 1)), which=draw(st.integers(0, 9)), value=draw(gen.floats(0.05, 0.95)),
+                            index=draw(st.integers(0, 3)), reader=draw(st.sampled_from(["dispatch", "dispatch", "load"]))))
+            n_live += 2
         else:
             ops.append(dict(op=kind, obj=draw(st.integers(0, n_live - 1)), which=draw(st.integers(0, 9)), value=draw(gen.floats(0.05, 0.95)),
                             index=draw(st.integers(0, 3))))
@@ -353,6 +357,41 @@ def check_case(case):
                     model.append(state_of(live[-1]))
                 labels.append("load-into-existing")
                 check_all(step, touched=jm)
+            elif op["op"] == "rereadsame":
+                # one unchanged file read twice, the first object edited in place: the second object and a third read of the
+                # file still hold what was saved (seeded change C15-R6: a parse cache handing out its lists and dicts)
+                i = op["obj"] % len(live)
+                o = live[i]
+                path = os.path.join(tmp, f"r{k}.json")
+                sut(o.save, path, what="save")
+                saved = state_of(o)
+
+                def read_again():
+                    if op["reader"] == "load":
+                        b = type(o)()
+                        sut(b.load, path, what="load")
+                        return b
+                    return sut(hv.read_settings_object_from_file, path, what="read_settings_object_from_file")
+                b1, b2 = read_again(), read_again()
+                mut = [a for a in b1.attrs if isinstance(getattr(b1, a), (list, dict, np.ndarray))]
+                edited = False
+                if mut:
+                    attr = mut[op["which"] % len(mut)]
+                    edited = bool(_mutate_in_place(attr, getattr(b1, attr), op))
+                b3 = read_again()
+                for name, b in (("the second object read from the file", b2), ("a third read of the file", b3)):
+                    got = state_of(b)
+                    if got != saved:
+                        keys = [q for q in set(got) | set(saved) if got.get(q) != saved.get(q)]
+                        raise Violation(f"{step}: an unchanged settings file was read twice and the first object edited in place ({attr if mut else None}); "
+                                        f"{name} differs from what was saved in {keys}: {[(str(saved.get(q))[:70], str(got.get(q))[:70]) for q in keys][:2]}")
+                live.extend([b1, b2])
+                model.extend([state_of(b1), state_of(b2)])
+                labels.append("same-file-read-twice")
+                if edited:
+                    nontrivial = True
+                    labels.append("in-place-mutation")
+                check_all(step)
             elif op["op"] == "process":
                 i = op["obj"] % len(live)
                 o = live[i]
